@@ -50,16 +50,30 @@ def strategy():
         lvl = draw(st.one_of(st.none(), st.sampled_from(gen.LEVELS)))
         ident = draw(st.one_of(st.none(), st.sampled_from([b"snoopy", b"id-%{snoopy_literal:x}", b"%{env:I}", b"a b", b""]),
                                gen.text_bytes(250, 255).map(gen.make_safe)))
-        identval = draw(gen.text_bytes(0, 40))
+        if out in ("devlog", "default", "bogus"):
+            # the ident matters only here: make templates whose expansion is much longer than their text frequent
+            ident = draw(st.sampled_from([None, b"snoopy", b"%{env:I}", b"%{env:I}", b"x%{env:I}y", b"id-%{snoopy_literal:x}", b""]))
+        n_id = draw(st.sampled_from([0, 5, 40, 100, 200, 246, 253, 254, 255]))
+        identval = draw(gen.text_bytes(n_id, n_id))
+        sockpad = draw(st.sampled_from([0, 0, 100, 105, 106, 107]))      # total length of the socket path (0 = natural)
         exact_limit = draw(st.booleans())
         real = draw(st.sampled_from([False] * 3 + [True])) and n < 100000
         repeat = draw(st.sampled_from([1, 1, 2, 3]))
-        return {"repeat": repeat, "out": out, "stdio": stdio, "n": n, "body": body, "shape": shape, "chain": chain, "errlog": errlog,
+        return {"repeat": repeat, "sockpad": sockpad, "out": out, "stdio": stdio, "n": n, "body": body, "shape": shape, "chain": chain, "errlog": errlog,
                 "fac": fac, "lvl": lvl, "ident": ident, "identval": identval, "exact_limit": exact_limit, "real": real}
     return case()
 
 
 CHAINS = {"none": None, "pass": b"noop", "drop": b"only_uid:4242", "pass2": b"only_root;exclude_uid:5", "dropmid": b"noop;exclude_uid:0;only_root"}
+
+
+def sock_path(c, out):
+    """socket path, optionally padded to an exact total length (sun_path holds at most 107 bytes)"""
+    n = c.get("sockpad", 0)
+    base = out + "/sock"
+    if n and n > len(base):
+        return base + "k" * (n - len(base))
+    return base
 
 
 def plan(c, out, trim=0):
@@ -99,7 +113,7 @@ def plan(c, out, trim=0):
     elif k == "filetpl":
         opts.append((b"output", b"file:" + o + b"/log-%{snoopy_literal:x}-%{env:Z}"))
     elif k == "socket":
-        opts.append((b"output", b"socket:" + o + b"/sock"))
+        opts.append((b"output", b"socket:" + sock_path(c, out).encode()))
     elif k == "file-noarg":
         opts.append((b"output", b"file"))
     elif k != "default":
@@ -116,8 +130,9 @@ def plan(c, out, trim=0):
         opts.append((b"syslog_ident", c["ident"]))
     ident_fmt = c["ident"] if c["ident"] is not None else b"snoopy"
     ident = model.render(model.expand_pieces(ident_fmt, fctx))
+    ident_overflow = len(ident) > 255       # beyond the fixed ident limit only the bound is required (C05's subject)
     return {"ini": gen.render_ini(opts), "environ": environ, "path": path, "argv": argv, "message": message,
-            "dropped": c["chain"] in ("drop", "dropmid"), "ident": ident}
+            "dropped": c["chain"] in ("drop", "dropmid"), "ident": ident, "ident_overflow": ident_overflow}
 
 
 def evaluate(env, c):
@@ -133,7 +148,7 @@ def evaluate(env, c):
             ops.append(drv.op("S", fd, "file", out + "/fd%d.file" % fd))
         else:
             ops.append(drv.op("S", fd, c["stdio"]))
-    ops += [drv.op("K", "devlog", out + "/devlog.sock", 1), drv.op("K", "sock", out + "/sock"),
+    ops += [drv.op("K", "devlog", out + "/devlog.sock", 1), drv.op("K", "sock", sock_path(c, out)),
             drv.op("W", "log", out + "/log"), drv.op("W", "logtpl", out + "/log-x-1"),
             drv.op("C", p["ini"]), drv.op_env(p["environ"]), drv.op("Q")]
     k = c.get("repeat", 1)
@@ -203,6 +218,13 @@ def evaluate(env, c):
         else:
             expect[sink] = (msg + b"\n") * k
     observed = {name: content for name, (typ, fd, content) in final.items()}
+    if p.get("ident_overflow") and logged and sink == "devlog":
+        # normalise: any ident of at most 255 bytes is acceptable here
+        norm = []
+        for dgm in observed.get("devlog") or []:
+            m = re.match(rb"^(<\d+>)(.{0,255}?)(\[%d\]: )" % pid, dgm, re.S)
+            norm.append(m.group(1) + p["ident"][:255] + dgm[m.end(2):] if m else dgm)
+        observed["devlog"] = norm
     if c["errlog"]:
         # additional separate error records are tolerated at any sink; the real record must still be there
         if logged and sink:
